@@ -62,12 +62,16 @@ type Task struct {
 	Panic      any
 	PanicStack string
 	releases   int
+	pendingW   bool      // blocked inside a write Lock (tried it, found it taken)
 	firstAcq   time.Time // instant of the first lock acquisition since MarkOp (zero: none yet)
 }
 
 type lockState struct {
 	writer  *Task
 	readers map[*Task]int
+	// tasks blocked inside Lock(): sync.RWMutex keeps new readers out while a writer waits
+	// (which is what makes a recursive read lock deadlock-prone)
+	pending map[*Task]bool
 }
 
 // Policy parameters of one run (part of the plan, decided by the seed).
@@ -347,6 +351,8 @@ func Lock(m Locker, site string) {
 			s.acquired(m, t, modeW)
 			return
 		}
+		// the lock is taken: from here on the task is blocked inside Lock()
+		s.setPendingWriter(m, t)
 	}
 }
 
@@ -408,6 +414,9 @@ func TryRLock(m RLocker, site string) bool {
 		return m.TryRLock()
 	}
 	s.park(t, site, nil, modeNone, time.Time{})
+	if s.writerPending(m) {
+		return false // as sync.RWMutex.TryRLock does while a writer waits
+	}
 	ok := m.TryRLock()
 	if ok {
 		s.acquired(m, t, modeR)
@@ -444,6 +453,10 @@ func (s *Sched) acquired(m any, t *Task, mode int) {
 	}
 	if mode == modeW {
 		ls.writer = t
+		if t != nil && t.pendingW {
+			t.pendingW = false
+			delete(ls.pending, t)
+		}
 	} else {
 		ls.readers[t]++
 	}
@@ -472,6 +485,34 @@ func (s *Sched) FirstAcquire() (time.Time, bool) {
 	s.mu.Lock()
 	defer s.mu.Unlock()
 	return t.firstAcq, !t.firstAcq.IsZero()
+}
+
+func (s *Sched) setPendingWriter(m any, t *Task) {
+	if s.pol.Overlap > 1 {
+		return
+	}
+	s.mu.Lock()
+	ls := s.locks[m]
+	if ls == nil {
+		ls = &lockState{readers: map[*Task]int{}}
+		s.locks[m] = ls
+	}
+	if ls.pending == nil {
+		ls.pending = map[*Task]bool{}
+	}
+	ls.pending[t] = true
+	t.pendingW = true
+	s.mu.Unlock()
+}
+
+func (s *Sched) writerPending(m any) bool {
+	if s.pol.Overlap > 1 {
+		return false
+	}
+	s.mu.Lock()
+	defer s.mu.Unlock()
+	ls := s.locks[m]
+	return ls != nil && len(ls.pending) > 0
 }
 
 func (s *Sched) released(m any, mode int) {
@@ -585,6 +626,12 @@ func (s *Sched) finish(t *Task, g uint64) {
 	}
 	s.mu.Lock()
 	t.state = stDone
+	if t.pendingW {
+		for _, ls := range s.locks {
+			delete(ls.pending, t)
+		}
+		t.pendingW = false
+	}
 	delete(s.byGID, g)
 	// a task that dies holding locks keeps them (as a real goroutine would)
 	s.mu.Unlock()
@@ -692,9 +739,13 @@ func (s *Sched) lockFree(t *Task) bool {
 		return true
 	}
 	if t.waitMode == modeW {
+		if !t.pendingW {
+			return true // has not tried yet: it may run, find the lock taken and start waiting inside Lock()
+		}
 		return ls.writer == nil && len(ls.readers) == 0
 	}
-	return ls.writer == nil
+	// a reader waits for the writer, and for writers that are already waiting inside Lock()
+	return ls.writer == nil && len(ls.pending) == 0
 }
 
 // snapshot returns eligible tasks (sorted by name), the earliest notBefore of a
